@@ -63,11 +63,68 @@ def mutants(kind, b, rng, quick):
     for i in range(max(0, n - 400), n):
         for v in range(0, 18):
             if i + 1 + v <= n: out.append(('trailing field re-framed', b[:i] + leb(v) + b[i + 1:i + 1 + v]))
+    # a window of the size of a group element / scalar overwritten by the special encodings (all zero = identity point or
+    # zero scalar, all 0xFF = invalid, 0x02||0.. / 0x03||0.. = SEC1 x = 0): the value PARSES in some builds and is then used
+    wins = list(range(0, min(n, 140))) + list(range(140, n, 11 if quick else 3))
+    for w in (32, 33):
+        for i in wins:
+            if i + w > n: continue
+            out.append(('element window zeroed', b[:i] + bytes(w) + b[i + w:]))
+            if i % 4 == 0 or not quick:
+                out.append(('element window 0xFF', b[:i] + b'\xff' * w + b[i + w:]))
+                out.append(('element window tag+zero', b[:i] + bytes([2 + (i & 1)]) + bytes(w - 1) + b[i + w:]))
     # trailing garbage and random strings
     out.append(('trailing byte', b + b'\x00')); out.append(('trailing bytes', b + bytes(40)))
     for _ in range(60 if quick else 2000):
         out.append(('random bytes', bytes(rng.randrange(256) for _ in range(rng.randint(0, 80)))))
     return [(kind, what, m) for what, m in out]
+
+
+def structural(kind, b, others, cfg):
+    """consistent re-framings: an element of a list removed or repeated WITH its count adjusted (the object still parses),
+    chains emptied, entries and traps re-arranged - what a byte-level mutation cannot reach"""
+    import c07, c08
+    sz = vf.CONFIGS[cfg]['sizes']
+    c08.SK, c08.PT, c08.DK = sz['SK'], sz['PT'], sz['DK']; c07.PT, c07.CT = sz['PT'], sz['CT']
+    out = []
+    try:
+        if kind == 'USK':
+            k = c08.K(b)
+            if k.build() != b: return []
+            def emit(what, t): out.append((kind, 'structural: ' + what, t.build()))
+            for i in range(len(k.ps) + 1):
+                t = k.copy(); t.ps = t.ps[:i]; emit(f'tracing points cut to {i}', t)
+            t = k.copy(); t.ps = t.ps + t.ps[:1]; emit('tracing point repeated', t)
+            for i in range(len(k.id) + 1):
+                t = k.copy(); t.id = t.id[:i]; emit(f'markers cut to {i}', t)
+            t = k.copy(); t.id = t.id + t.id[:1]; emit('marker repeated', t)
+            t = k.copy(); t.id = []; t.ps = []; emit('no marker, no point', t)
+            for i in range(len(k.chains)):
+                t = k.copy(); del t.chains[i]; emit('chain dropped', t)
+                t = k.copy(); t.chains[i] = (t.chains[i][0], []); emit('chain emptied', t)
+                t = k.copy(); t.chains.append(t.chains[i]); emit('chain repeated', t)
+                t = k.copy(); t.chains[i] = (t.chains[i][0], t.chains[i][1] + t.chains[i][1][:1]); emit('secret repeated', t)
+                if len(k.chains[i][1]) > 1: t = k.copy(); t.chains[i] = (t.chains[i][0], t.chains[i][1][1:]); emit('newest secret dropped', t)
+            t = k.copy(); t.chains = []; emit('no chain', t)
+            t = k.copy(); t.chains = [(r, []) for r, _ in t.chains]; emit('all chains emptied', t)
+            t = k.copy(); t.sig = b''; emit('signature stripped', t)
+            keep = list(out)
+            for _, w, m in keep:                   # the same without signature (a key read from bytes need not carry one)
+                kk = c08.K(m); kk.sig = b''; out.append((kind, w + ', unsigned', kk.build()))
+        elif kind == 'ENC':
+            e = c07.Enc(b)
+            if e.build() != b: return []
+            oth = []
+            for o in others:
+                try: oth.append(c07.Enc(o))
+                except Exception: pass
+            for what, m in c07.structural(e, oth): out.append((kind, 'structural: ' + what, m))
+            t = e.copy(); t.c = []; out.append((kind, 'structural: no trap', t.build()))
+            t = e.copy(); t.es = []; out.append((kind, 'structural: no entry', t.build()))
+            t = e.copy(); t.c = t.c + t.c; out.append((kind, 'structural: traps doubled', t.build()))
+    except Exception:
+        return out
+    return out
 
 
 def run(ctx):
@@ -88,6 +145,9 @@ def run(ctx):
         cases = []
         if cfg == 'default': cases += [(l.split(' ')[0], 'corpus', bytes.fromhex(l.split(' ')[1])) for l in corpus]
         for kind, b in objs: cases += mutants(kind, b, ctx.rng, ctx.quick())
+        allobjs = [(l.split(' ')[0], bytes.fromhex(l.split(' ')[1])) for l in gen]
+        for kind, b in allobjs:
+            if kind in ('USK', 'ENC'): cases += structural(kind, b, [o for k2, o in allobjs if k2 == kind and o != b], cfg)
         lines = [f'{k} {m.hex()}' for k, w, m in cases]
         nshard = 16
         shards = [list(range(i, len(lines), nshard)) for i in range(nshard)]
